@@ -151,6 +151,9 @@ def search(pid, unit, failure, tier='quick', seed=0, deadline=None):
     if unit == 'U-LEXA':
         from . import witness_lexa
         return witness_lexa.search(deadline, rng)
+    if unit == 'U-LINT' and pid == 'C06':
+        from . import witness_alpha
+        return witness_alpha.search_l1800(deadline, rng)
     if unit in ('U-SYN',):
         from . import witness_alpha
         return witness_alpha.search_syntax(deadline, rng)
@@ -164,6 +167,12 @@ def replay(w):
         r = replayrun.run(w['mode'], data, timeout=30)
         if w['mode'] == 'delta' and 'expect_result' not in w:
             return _crashes(r)
+        if 'expect_l1800' in w:
+            if r.get('status') != 'ok':
+                return r.get('status') in ('panic', 'crash')
+            lints = [c for c in r['result'].get('lints', '[]').strip('[]').split(',') if c]
+            codes = [c for c in r['result'].get('errors', '[]').strip('[]').split(',') if c]
+            return bool(codes) or sum(1 for c in lints if c == '1800') != w['expect_l1800']
         if 'expect_literal' in w:
             from . import witness_literals
             return not witness_literals.verdict_ok(w['expect_literal'], r)
